@@ -599,5 +599,22 @@ func cmdLockLoops() {
 				fmt.Printf("local\t%s\t%s\t%d\n", k, v.Name(), i)
 			}
 		}
+		cnt := map[string]int{}
+		ast.Inspect(fi.Decl.Body, func(x ast.Node) bool {
+			if call, ok := x.(*ast.CallExpr); ok {
+				if name := c.calleeShort(call); name != "" {
+					cnt[name]++
+				}
+			}
+			return true
+		})
+		var names []string
+		for n := range cnt {
+			names = append(names, n)
+		}
+		sort.Strings(names)
+		for _, n := range names {
+			fmt.Printf("call\t%s\t%s\t%d\n", k, n, cnt[n])
+		}
 	}
 }
